@@ -455,9 +455,9 @@ func genTunnel(r *hv.Rng, big bool) (hv.Val, string) {
 	class := []string{"ws", "stream"}[kind]
 	if big { // beyond the 4 KiB bufio buffers of the HTTP server / the backend-side reader
 		if r.Bool() {
-			ce = r.Range(3800, 5200)
+			ce = r.Range(3950, 4500)
 		} else {
-			be = r.Range(3800, 5200)
+			be = r.Range(3950, 4500)
 		}
 		class += "-big"
 	}
@@ -482,7 +482,7 @@ func gen(r *hv.Rng, i int, tier string) (string, hv.Val) {
 		return "triv-malformed", bad[r.Intn(len(bad))]
 	}
 	n := r.Range(2, 4)
-	big := i%20 == 3
+	big := i%24 == 3
 	if big {
 		n = 1
 	}
